@@ -304,7 +304,7 @@ def cosim_one(args):
     Connection._get_next_available_channel_id = traced_next
     Stateful.set_state = traced_set
     try:
-        ctx = vrt.run_scenario(scenario, refbroker.factory(policy), seed=seed, p_preempt=0.15, p_jump=0.1,
+        ctx = vrt.run_scenario(scenario, refbroker.factory(policy), seed=seed, p_stall=(0.4 if seed % 4 == 2 else 0.0), p_preempt=0.15, p_jump=0.1,
                                fair_time=(seed % 2 == 1), repo_path=str(common.REPO))
     finally:
         Connection._get_next_available_channel_id = orig_next
